@@ -284,7 +284,7 @@ def _content_encoding_415(ctx: Ctx) -> None:
     sub.assumptions = []
     sub.functions_analysed = set(ctx.functions_analysed)
     c17.run(sub)
-    picked = [o for o in sub.obligations if "415" in o.instance or "coding" in o.instance]
+    picked = [o for o in sub.obligations if "415" in o.instance or "coding" in o.instance or "undecodable" in o.instance]
     if len(picked) < 4:
         raise AnalysisError("C15: content-encoding clauses of the C17 analysis not found (anchor drift)")
     for o in picked:
